@@ -221,7 +221,7 @@ func startSafe(k *compKind, p []string) bool {
 	for _, e := range p {
 		switch e {
 		case "auth", "storage", "batcher", "num_consumers", "cipher_suites", "curve_preferences",
-			"include_system_ca_certs_pool", "proxy_url", "output_paths", "error_output_paths", "address", "readers", "views":
+			"include_system_ca_certs_pool", "proxy_url", "output_paths", "error_output_paths", "address", "readers", "views", "processors", "middlewares", "middleware":
 			return false
 		}
 		if strings.HasSuffix(e, "_file") || strings.HasSuffix(e, "_pem") {
